@@ -51,6 +51,7 @@ type pwPath struct {
 	mem       map[string]ssa.Value // store-to-load forwarding: address key -> last stored value on this path
 	stores    map[string]ssa.Value // every store on the path (last value per address), never invalidated
 	seed      func(*pwPath, ssa.Value) (constant.Value, bool)
+	equate    bool                                             // a value found equal to a constant by a decision of this path folds to it (see equatedConst)
 	loadHook  func(*pwPath, *ssa.UnOp) (constant.Value, bool) // consulted when a load executes and no store on this path determines it
 	unknown   map[string]bool                                 // objects overwritten as a whole by a value that is not tracked
 	loadAt    map[ssa.Value]int                               // load -> number of events recorded when it (last) executed
@@ -475,6 +476,7 @@ type pwState struct {
 type pathWalker struct {
 	mu         *sync.Mutex
 	loadHook   func(*pwPath, *ssa.UnOp) (constant.Value, bool)
+	equate     bool // see pwPath.equate: only for consumers that do not re-evaluate the path's decisions against a model of their own
 	unroll1    bool // loops: explore zero and one iteration (on re-entering a loop header the exit edge is forced)
 	seed       func(*pwPath, ssa.Value) (constant.Value, bool)
 	inline     func(caller, callee *ssa.Function) bool
@@ -492,7 +494,7 @@ type pathWalker struct {
 }
 
 func (p *pwPath) clone() *pwPath {
-	q := &pwPath{seed: p.seed, loadHook: p.loadHook, revisits: p.revisits}
+	q := &pwPath{seed: p.seed, loadHook: p.loadHook, equate: p.equate, revisits: p.revisits}
 	if p.revisited != nil {
 		q.revisited = make(map[*ssa.BasicBlock]int, len(p.revisited))
 		for k, v := range p.revisited {
@@ -636,6 +638,12 @@ func (p *pwPath) constOfD(v ssa.Value, d int) (constant.Value, bool) {
 			return c, true
 		}
 	}
+	// a value this path has found equal to a constant is that constant (a value has one meaning on a path)
+	if p.equate && d < 14 {
+		if c, ok := p.equatedConst(v, d); ok {
+			return c, true
+		}
+	}
 	switch x := v.(type) {
 	case *ssa.BinOp:
 		if x.Op == token.EQL || x.Op == token.NEQ {
@@ -722,6 +730,54 @@ func (p *pwPath) constOfD(v ssa.Value, d int) (constant.Value, bool) {
 		}
 	case *ssa.ChangeType:
 		return p.constOfD(x.X, d+1)
+	case *ssa.Call:
+		if b, isB := x.Call.Value.(*ssa.Builtin); isB && b.Name() == "len" && len(x.Call.Args) == 1 {
+			if t := p.sliceTableOf(x.Call.Args[0]); t != nil {
+				return constant.MakeInt64(t.length), true
+			}
+			// the length of a text that is known on this path
+			if bt, isBasic := x.Call.Args[0].Type().Underlying().(*types.Basic); isBasic && bt.Info()&types.IsString != 0 {
+				if a, ok := p.constOfD(x.Call.Args[0], d+1); ok && a.Kind() == constant.String {
+					return constant.MakeInt64(int64(len(constant.StringVal(a)))), true
+				}
+			}
+		}
+		if c, ok := p.tableSearch(x, d); ok {
+			return c, true
+		}
+	}
+	return nil, false
+}
+
+// equatedConst: a decision of this path compared v with a constant and found them equal.
+func (p *pwPath) equatedConst(v ssa.Value, d int) (constant.Value, bool) {
+	switch v.(type) {
+	case *ssa.Call, *ssa.Parameter, *ssa.UnOp, *ssa.Extract, *ssa.Field, *ssa.Index, *ssa.Lookup, *ssa.Phi:
+	default:
+		return nil, false
+	}
+	if _, isBasic := v.Type().Underlying().(*types.Basic); !isBasic {
+		return nil, false
+	}
+	for _, dc := range p.decisions {
+		bo, ok := dc.cond.(*ssa.BinOp)
+		if !ok || (bo.Op != token.EQL && bo.Op != token.NEQ) || dc.truth != (bo.Op == token.EQL) {
+			continue
+		}
+		x, y := p.resolve(bo.X), p.resolve(bo.Y)
+		other := y
+		if x != v {
+			if y != v {
+				continue
+			}
+			other = x
+		}
+		if other == v {
+			continue
+		}
+		if c, ok := p.constOfD(other, d+8); ok {
+			return c, true
+		}
 	}
 	return nil, false
 }
@@ -812,7 +868,7 @@ func (pw *pathWalker) walk(fn *ssa.Function) {
 		return
 	}
 	root := &pwFrame{fn: fn}
-	st := &pwState{frame: root, block: fn.Blocks[0], p: &pwPath{seed: pw.seed, loadHook: pw.loadHook, loadAt: map[ssa.Value]int{}, unknown: map[string]bool{}, consts: map[ssa.Value]constant.Value{}, alias: map[ssa.Value]ssa.Value{}, tuples: map[ssa.Value][]ssa.Value{}, mem: map[string]ssa.Value{}, stores: map[string]ssa.Value{}},
+	st := &pwState{frame: root, block: fn.Blocks[0], p: &pwPath{seed: pw.seed, loadHook: pw.loadHook, equate: pw.equate, loadAt: map[ssa.Value]int{}, unknown: map[string]bool{}, consts: map[ssa.Value]constant.Value{}, alias: map[ssa.Value]ssa.Value{}, tuples: map[ssa.Value][]ssa.Value{}, mem: map[string]ssa.Value{}, stores: map[string]ssa.Value{}},
 		decided: map[ssa.Value]bool{}, arrived: map[*ssa.BasicBlock]int{}, arrivedEv: map[*ssa.BasicBlock]int{}, visits: map[*ssa.BasicBlock]int{}, inlined: map[*ssa.Function]bool{fn: true}}
 	// states are independent once forked: explore them on all cores; the result is put into a
 	// canonical order afterwards so that reports do not depend on scheduling
